@@ -203,6 +203,7 @@ impl ZodBindingsGenerator {
         let mut context = Context::new();
         context.insert("header", &self.generate_file_header());
         context.insert("commands", &command_contexts);
+        context.insert("mapped_types", &TypeCollector::mapped_type_targets(config));
         context.insert(
             "has_channels",
             &commands.iter().any(|cmd| !cmd.channels.is_empty()),
@@ -245,6 +246,7 @@ impl ZodBindingsGenerator {
         let mut context = Context::new();
         context.insert("header", &self.generate_file_header());
         context.insert("events", &event_contexts);
+        context.insert("mapped_types", &TypeCollector::mapped_type_targets(config));
 
         self.render("zod/events.ts.tera", &context)
             .unwrap_or_else(|e| {
